@@ -190,11 +190,15 @@ def execute(run, exes, statsfile=None, record=False):
         os.remove(statsfile)
     t0 = time.time()
     timeout = run.get("timeout", 120)
+    import tempfile, shutil
+    cwd = tempfile.mkdtemp(prefix="run-", dir=TB)  # drivers may create files: one scratch directory per run
     try:
-        p = subprocess.run(args, env=env, stdout=subprocess.PIPE, stderr=subprocess.PIPE, timeout=timeout, cwd=TB)
+        p = subprocess.run(args, env=env, stdout=subprocess.PIPE, stderr=subprocess.PIPE, timeout=timeout, cwd=cwd)
         rc, out, err, to = p.returncode, p.stdout, p.stderr, False
     except subprocess.TimeoutExpired as e:
         rc, out, err, to = -9, e.stdout or b"", e.stderr or b"", True
+    finally:
+        shutil.rmtree(cwd, ignore_errors=True)
     stats = {}
     try:
         stats = json.load(open(statsfile))
